@@ -245,7 +245,12 @@ impl futures_io::AsyncRead for Pieces {
         if self.left_in_piece == 0 {
             if self.idx >= self.plan.len() {
                 if self.err_at_end {
-                    return Poll::Ready(Err(std::io::Error::new(std::io::ErrorKind::Other, "source error")));
+                    // whatever the kind of the error, the body is incomplete (kinds that mean "try again" are left out)
+                    use std::io::ErrorKind as K;
+                    let kinds = [K::Other, K::UnexpectedEof, K::BrokenPipe, K::ConnectionReset, K::ConnectionAborted, K::TimedOut,
+                                 K::InvalidData, K::NotFound, K::PermissionDenied, K::WriteZero, K::InvalidInput];
+                    let k = kinds[(self.given as usize + self.plan.len()) % kinds.len()];
+                    return Poll::Ready(Err(std::io::Error::new(k, "source error")));
                 }
                 return Poll::Ready(Ok(0));
             }
